@@ -56,7 +56,9 @@ check_C07 = session_check("C07", "message types on the wire before the first log
 check_C16 = session_check("C16", "each invalid/not-permitted admin message -> exactly one Reject with RefSeqNum (or RefTagID=34), state/context unchanged")
 check_C14 = session_check("C14", "each TestRequest while logged on -> exactly one Heartbeat with identical TestReqID; real-time scenario: a "
                                  "TestRequest arriving while the session waits for the answer to its own TestRequest", with_timing=True)
-check_C10 = session_check("C10", "resend answers = recorded first transmissions b..e byte-identical, nothing outside the range; gap request starts at the first missing number")
+check_C10 = session_check("C10", "resend answers = recorded first transmissions b..e byte-identical, nothing outside the range; gap request starts at the "
+                                 "first missing number; real-time scenario: a ResendRequest for the first of several timer heartbeats returns those very messages",
+                          with_timing=True)
 check_C15 = session_check("C15", "peer Logout -> one Logout, not logged; own Logout -> none on the answer, logout event, context cancelled after Stop; "
                                  "real-time scenario: Stop with close timeouts 0 / 50 ms / 500 ms and a silent peer", with_timing=True)
 check_C19 = session_check("C19", "every transmitted message was saved under its number earlier in the same step; failed save / refusal -> not transmitted")
